@@ -12,7 +12,7 @@ import sys
 import tempfile
 
 VERIF = os.path.dirname(os.path.dirname(os.path.abspath(__file__)))
-ALSO = {'C05': ['C12', 'C13'], 'C03': ['C05', 'C13'], 'C04': ['C06'], 'C06': ['C04', 'C05'], 'C14': ['C07'], 'C08': ['C07'], 'C18': ['C07'], 'C20': ['C07'], 'C12': ['C05'], 'C13': ['C07'], 'C09': ['C17'], 'C10': ['C17', 'C02', 'C03', 'C01']}
+ALSO = {'C05': ['C12', 'C13'], 'C03': ['C05', 'C13'], 'C04': ['C06'], 'C06': ['C04', 'C05'], 'C14': ['C07'], 'C08': ['C07'], 'C18': ['C07'], 'C20': ['C07'], 'C12': ['C05'], 'C13': ['C07'], 'C09': ['C17'], 'C17': ['C05', 'C18'], 'C10': ['C17', 'C02', 'C03', 'C01']}
 
 
 def run_seed(sid, tier, allchecks):
